@@ -51,6 +51,7 @@ func VerifC13SyslogHandOff() {
 	written := enc.n
 	cancel()
 	<-done
+	verifrt.KeepOpen(w)
 	verifrt.Reach("c13.syslog.returned")
 	verifrt.Assert("c13.syslog.error", err != nil)
 	verifrt.Quiesce()
